@@ -77,24 +77,25 @@ def getScheme (u : Str) : Option (Str × Str) := getSchemeAux u [] u
 inductive Err | scheme | url | syntax | shape | other
   deriving DecidableEq, Repr
 
-/-- `ParseAddress`: the scheme of the parsed URL, or the url error.  `restOk` is net/url's verdict on
-    everything after the scheme (authority, port, escapes, fragment) — third-party, an oracle here; it is
-    consulted exactly where url.Parse goes on validating. -/
+/-- what url.Parse still checks once the scheme is split off.  `restOk` is net/url's verdict on the
+    authority, port, escapes and fragment — third-party, an oracle here; it is consulted exactly where
+    url.Parse goes on validating.  `t` = trimmed input, `u` = `t` up to '#', `s` = lower-cased scheme. -/
+def accepts (restOk : Str → Bool) (t u s rest : Str) : Bool :=
+  let path := rest.takeWhile (· != '?')
+  if !hasPrefix path ['/'] then
+    if !s.isEmpty then (t.length == u.length || restOk t)          -- opaque URL: only the fragment is still checked
+    else if (path.takeWhile (· != '/')).contains ':' then false      -- "first path segment in URL cannot contain colon"
+    else restOk t
+  else restOk t
+
+/-- `ParseAddress`: the scheme of the parsed URL, or the url error. -/
 def parseAddress (restOk : Str → Bool) (a : Str) : Except Err Str :=
   let t := trim a
   let u := t.takeWhile (· != '#')
   if u.any isCtl then .error .url
-  else if u == ['*'] then (if restOk t then .ok [] else .error .url)
   else match getScheme u with
     | none => .error .url
-    | some (s, rest) =>
-      let s := lower s
-      let path := rest.takeWhile (· != '?')
-      if !hasPrefix path ['/'] then
-        if !s.isEmpty then (if t.length == u.length || restOk t then .ok s else .error .url)   -- opaque: only the fragment is still checked
-        else if (path.takeWhile (· != '/')).contains ':' then .error .url
-        else if restOk t then .ok s else .error .url
-      else if restOk t then .ok s else .error .url
+    | some (s, rest) => if accepts restOk t u (lower s) rest then .ok (lower s) else .error .url
 
 /-! ## the scheme tables -/
 
@@ -200,7 +201,7 @@ def addrNetwork (scheme : Str) : Option Str :=
     if fn == "ResolveTCPAddr".toList then
       (if net == "tcp".toList || net == "tcp4".toList || net == "tcp6".toList then some "tcp".toList else none)
     else if fn == "ResolveUDPAddr".toList then
-      (if net == "udp".toList || net == "udp4".toList then some "udp".toList else none)   -- udp6 cannot resolve the harness's IPv4 host
+      (if net == "udp".toList || net == "udp4".toList || net == "udp6".toList then some "udp".toList else none)
     else if fn == "ResolveUnixAddr".toList then
       (if net == "unix".toList || net == "unixgram".toList || net == "unixpacket".toList then some net else none)
     else none
@@ -275,12 +276,13 @@ def tlsWord (b : Bool) : String := if b then "tls" else "plain"
 def runStr (p : Pos) (ctor : String) (r : Run) : String :=
   if !r.observable then "-"
   else if r.failed then "error"
+  else if r.scheme == "udp6".toList then "error"   -- environment, not scheme: the harness's host 127.0.0.1 has no udp6 address
   else
     let net := String.ofList r.network
     let sch := String.ofList r.scheme
     match p, ctor with
     | .server, "NewSocketServer" => s!"sock,{net},{tlsWord r.tls},{boolStr r.secure}"
-    | .server, "NewHttpServer" => s!"http,{sch},{tlsWord r.tls},{boolStr r.secure}"
+    | .server, "NewHttpServer" => s!"http,{sch},{boolStr r.secure}"
     | .server, "NewIoServer" => s!"stdio,{sch},{tlsWord r.tls}"
     | .server, "NewPacketServer" => s!"packet,kcp.Listener,{net}"
     | .server, "NewDnsServer" => s!"dns,dns.ServerDnsListener,{sch},{boolStr r.secure}"
